@@ -22,7 +22,7 @@ import (
 //
 // The lock is an unexported field of an unexported type of rux and verif_hooks.go has no accessor for it,
 // so it is reached by reflection: a field of type sync.RWMutex of the value behind the pointer.  If there is
-// none (the representation changed) the ops answer "unsupported" and the harness skips them.
+// none (the representation changed) the call is made without the overlap (counted in lruHeldStats).
 
 func lruLockOf(c any) *sync.RWMutex {
 	v := reflect.ValueOf(c)
@@ -43,10 +43,19 @@ func lruLockOf(c any) *sync.RWMutex {
 	return nil
 }
 
-// lruWhileRead runs call while the read lock lk is held by this goroutine (see above).  ok = false: the call
-// neither returned nor queued for the lock within a generous time (it cannot be classified; nothing is held
-// any more when lruWhileRead returns).
-func lruWhileRead(lk *sync.RWMutex, call func()) (ok bool) {
+// lruHeldStats: how often the overlap was arranged / the lock was not reachable / the call neither returned
+// nor queued for the lock within a generous time.
+var lruHeldStats struct{ held, noLock, timeout int }
+
+// lruWhileRead runs call while the read lock lk is held by this goroutine (see above) and returns when the
+// call has returned; nothing is held any more then.
+func lruWhileRead(lk *sync.RWMutex, call func()) {
+	if lk == nil {
+		lruHeldStats.noLock++
+		call()
+		return
+	}
+	lruHeldStats.held++
 	done := make(chan struct{})
 	var pv any
 	lk.RLock()
@@ -56,7 +65,6 @@ func lruWhileRead(lk *sync.RWMutex, call func()) (ok bool) {
 		call()
 	}()
 	deadline := time.Now().Add(10 * time.Second)
-	ok = true
 wait:
 	for {
 		select {
@@ -69,7 +77,7 @@ wait:
 		}
 		lk.RUnlock()
 		if time.Now().After(deadline) {
-			ok = false
+			lruHeldStats.timeout++
 			break wait
 		}
 		runtime.Gosched()
@@ -79,7 +87,6 @@ wait:
 	if pv != nil {
 		panic(pv)
 	}
-	return ok
 }
 
 // lruHeldOp: one Get / Has in six is made while a reader is inside the cache.
@@ -88,4 +95,9 @@ func lruHeldOp(r *Rand, op string) string {
 		return "r" + op
 	}
 	return op
+}
+
+// Stats (StatsEngine): reported in the evidence, never compared.
+func (lruEngine) Stats() map[string]int {
+	return map[string]int{"held_calls": lruHeldStats.held, "lock_not_reachable": lruHeldStats.noLock, "held_timeouts": lruHeldStats.timeout}
 }
